@@ -207,6 +207,16 @@ func (c *child) waitPing(d time.Duration) bool {
 
 func (c *child) do(r request) response { return c.doWith(httpClient, r) }
 
+// doPatient: for the harness' own idempotent reads (state digest): a time-out while the process lives is
+// retried once with the long time-out after the server answered a ping (a stalled machine is not a finding)
+func (c *child) doPatient(r request) response {
+	resp := c.do(r)
+	if resp.err != nil && isTimeout(resp.err) && c.alive() && c.waitPing(60*time.Second) {
+		return c.doWith(slowClient, r)
+	}
+	return resp
+}
+
 func (c *child) doWith(client *http.Client, r request) response {
 	req, err := http.NewRequest(r.method, fmt.Sprintf("http://127.0.0.1:%d%s", c.port, r.path), bytes.NewReader(r.body))
 	if err != nil {
@@ -264,7 +274,7 @@ func (w *world) readState() (map[string]map[string]*colInfo, string, string) {
 	var sb strings.Builder
 	for _, u := range w.users {
 		cols[u.user] = map[string]*colInfo{}
-		r := w.c.do(request{u.user, u.plan, "GET", "/v2/collections", "", nil})
+		r := w.c.doPatient(request{u.user, u.plan, "GET", "/v2/collections", "", nil})
 		if r.err != nil || r.status != 200 {
 			return nil, "", fmt.Sprintf("list collections of %s: status %d err %v", u.user, r.status, r.err)
 		}
@@ -285,7 +295,7 @@ func (w *world) readState() (map[string]map[string]*colInfo, string, string) {
 		for _, id := range ids {
 			key := u.user + "/" + id
 			greq := request{u.user, u.plan, "GET", "/v2/collections/" + id, "", nil}
-			r := w.c.do(greq)
+			r := w.c.doPatient(greq)
 			if r.err != nil {
 				return nil, "", fmt.Sprintf("get collection %s/%s: err %v", u.user, id, r.err)
 			}
@@ -334,7 +344,7 @@ func (w *world) readState() (map[string]map[string]*colInfo, string, string) {
 				}
 				q := Obj("query", Obj("property", Str("_id"), "stringArray", Obj("value", vals, "operator", Str("containsAny"))), "select", Arr(Str("*")), "limit", Int(100))
 				sreq := request{u.user, u.plan, "POST", "/v2/collections/" + id + "/points/search", "application/json", q.JSON()}
-				r := w.c.do(sreq)
+				r := w.c.doPatient(sreq)
 				if r.err != nil {
 					return nil, "", fmt.Sprintf("digest search %s/%s: err %v", u.user, id, r.err)
 				}
